@@ -11,46 +11,63 @@ Local Open Scope N_scope.
 Definition clean (t : token) : bool :=
   negb (is_rem_tok t) && match t with TWs _ => false | _ => true end.
 
-(* st stands in front of the tokens ts: nothing or exactly the first of them is held in the look-ahead slot *)
-Definition rep (st : pst) (ts : list token) : Prop :=
-  p_rem st = false /\ forallb clean ts = true /\
-  ((p_peek st = None /\ p_toks st = ts) \/ (exists t r, p_peek st = Some t /\ ts = t :: r /\ p_toks st = r)).
+(* what the parser sees of a token list: everything but the blanks (they only move the column) *)
+Definition vis (toks : list token) : list token := filter (fun t => match t with TWs _ => false | _ => true end) toks.
+Definition no_rem (toks : list token) : bool := forallb (fun t => negb (is_rem_tok t)) toks.
 
-Lemma next_raw_clean t r ce : clean t = true -> next_raw (t :: r) false ce = (Some t, r, false, ce, ce + lenN (token_str t)).
+(* st stands in front of the tokens ts (blanks between them not counted): nothing or exactly the first of them is held in
+   the look-ahead slot *)
+Definition rep (st : pst) (ts : list token) : Prop :=
+  p_rem st = false /\ forallb clean ts = true /\ no_rem (p_toks st) = true /\
+  ((p_peek st = None /\ vis (p_toks st) = ts) \/ (exists t r, p_peek st = Some t /\ ts = t :: r /\ vis (p_toks st) = r)).
+
+Lemma next_raw_vis : forall toks ce t r, no_rem toks = true -> vis toks = t :: r ->
+  exists toks' cs ce', next_raw toks false ce = (Some t, toks', false, cs, ce') /\ vis toks' = r /\ no_rem toks' = true.
 Proof.
-  unfold clean. intros H. apply andb_prop in H. destruct H as [H1 H2]. cbn [next_raw orb]. apply Bool.negb_true_iff in H1. rewrite H1.
-  destruct t; try discriminate; reflexivity.
+  induction toks as [| t0 rest IH]; intros ce t r Hn Hv; [discriminate |].
+  cbn [no_rem forallb] in Hn. apply andb_prop in Hn. destruct Hn as [Hn0 Hnr]. apply Bool.negb_true_iff in Hn0.
+  cbn [next_raw orb]. rewrite Hn0. cbn [vis filter] in Hv. destruct t0; try (injection Hv as <- <-; eexists; eexists; eexists; split; [reflexivity | split; [reflexivity | exact Hnr]]).
+  exact (IH _ t r Hnr Hv).
+Qed.
+
+Lemma next_raw_vis_nil : forall toks ce, no_rem toks = true -> vis toks = [] -> exists ce', next_raw toks false ce = (None, [], false, ce', ce').
+Proof.
+  induction toks as [| t0 rest IH]; intros ce Hn Hv; [eexists; reflexivity |].
+  cbn [no_rem forallb] in Hn. apply andb_prop in Hn. destruct Hn as [Hn0 Hnr]. apply Bool.negb_true_iff in Hn0.
+  cbn [next_raw orb]. rewrite Hn0. cbn [vis filter] in Hv. destruct t0; try discriminate. exact (IH _ Hnr Hv).
 Qed.
 
 Lemma pnext_rep st t r : rep st (t :: r) -> exists st', pnext st = Ok (Some t, st') /\ rep st' r /\ p_peek st' = None.
 Proof.
-  intros (Hrem & Hc & [[Hp Ht] | (t0 & r0 & Hp & E & Ht)]); unfold pnext, p_next; rewrite Hp.
-  - cbn [forallb] in Hc. apply andb_prop in Hc. destruct Hc as [Hct Hcr]. rewrite Ht, Hrem, (next_raw_clean t r _ Hct).
-    eexists. split; [reflexivity |]. split; [| reflexivity]. split; [reflexivity |]. split; [exact Hcr |]. left. split; reflexivity.
+  intros (Hrem & Hc & Hn & [[Hp Ht] | (t0 & r0 & Hp & E & Ht)]); unfold pnext, p_next; rewrite Hp.
+  - cbn [forallb] in Hc. apply andb_prop in Hc. destruct Hc as [Hct Hcr].
+    destruct (next_raw_vis (p_toks st) (p_ce st) t r Hn Ht) as (toks' & cs & ce' & E & Hv & Hn'). rewrite Hrem, E.
+    eexists. split; [reflexivity |]. split; [| reflexivity]. split; [reflexivity |]. split; [exact Hcr |]. split; [exact Hn' |]. left. split; [reflexivity | exact Hv].
   - injection E as <- <-. cbn [forallb] in Hc. apply andb_prop in Hc. destruct Hc as [Hct Hcr].
-    eexists. split; [reflexivity |]. split; [| reflexivity]. split; [exact Hrem |]. split; [exact Hcr |]. left. split; [reflexivity | exact Ht].
+    eexists. split; [reflexivity |]. split; [| reflexivity]. split; [exact Hrem |]. split; [exact Hcr |]. split; [exact Hn |]. left. split; [reflexivity | exact Ht].
 Qed.
 
 Lemma pnext_nil st : rep st [] -> exists st', pnext st = Ok (None, st') /\ rep st' [].
 Proof.
-  intros (Hrem & Hc & [[Hp Ht] | (t0 & r0 & Hp & E & Ht)]); [| discriminate]. unfold pnext, p_next. rewrite Hp, Ht. cbn [next_raw].
-  eexists. split; [reflexivity |]. split; [exact Hrem |]. split; [reflexivity |]. left. split; reflexivity.
+  intros (Hrem & Hc & Hn & [[Hp Ht] | (t0 & r0 & Hp & E & Ht)]); [| discriminate]. unfold pnext, p_next. rewrite Hp.
+  destruct (next_raw_vis_nil (p_toks st) (p_ce st) Hn Ht) as (ce' & E). rewrite Hrem, E.
+  eexists. split; [reflexivity |]. split; [reflexivity |]. split; [reflexivity |]. split; [reflexivity |]. left. split; reflexivity.
 Qed.
 
 Lemma ppeek_rep st t r : rep st (t :: r) -> exists st', ppeek st = Ok (Some t, st') /\ rep st' (t :: r).
 Proof.
-  intros H. pose proof H as (Hrem & Hc & [[Hp Ht] | (t0 & r0 & Hp & E & Ht)]); unfold ppeek, p_peekt; rewrite Hp.
-  - destruct (pnext_rep st t r H) as (st' & E & (Hrem' & Hc' & Hrep') & Hpk). unfold pnext in E. injection E as E. rewrite E.
-    eexists. split; [reflexivity |]. split; [exact Hrem' |]. split; [exact Hc |]. right. exists t, r. cbn [p_peek p_toks].
-    destruct Hrep' as [[_ Ht'] | (t1 & r1 & Hp1 & _)]; [| rewrite Hpk in Hp1; discriminate]. repeat split; try reflexivity. exact Ht'.
+  intros H. pose proof H as (Hrem & Hc & Hn & [[Hp Ht] | (t0 & r0 & Hp & E & Ht)]); unfold ppeek, p_peekt; rewrite Hp.
+  - destruct (pnext_rep st t r H) as (st' & E & (Hrem' & Hc' & Hn' & Hrep') & Hpk). unfold pnext in E. injection E as E. rewrite E.
+    eexists. split; [reflexivity |]. split; [exact Hrem' |]. split; [exact Hc |]. split; [exact Hn' |]. right. exists t, r. cbn [p_peek p_toks].
+    destruct Hrep' as [[_ Ht'] | (t1 & r1 & Hp1 & _)]; [| rewrite Hpk in Hp1; discriminate]. split; [reflexivity |]. split; [reflexivity | exact Ht'].
   - injection E as <- <-. exists st. split; [reflexivity | exact H].
 Qed.
 
 Lemma ppeek_nil st : rep st [] -> exists st', ppeek st = Ok (None, st') /\ rep st' [].
 Proof.
-  intros H. pose proof H as (Hrem & Hc & [[Hp Ht] | (t0 & r0 & Hp & E & Ht)]); [| discriminate]. unfold ppeek, p_peekt. rewrite Hp.
-  destruct (pnext_nil st H) as (st' & E & (Hrem' & Hc' & Hrep')). unfold pnext in E. injection E as E. rewrite E.
-  eexists. split; [reflexivity |]. split; [exact Hrem' |]. split; [reflexivity |]. left. cbn [p_peek p_toks]. split; [reflexivity |].
+  intros H. pose proof H as (Hrem & Hc & Hn & [[Hp Ht] | (t0 & r0 & Hp & E & Ht)]); [| discriminate]. unfold ppeek, p_peekt. rewrite Hp.
+  destruct (pnext_nil st H) as (st' & E & (Hrem' & Hc' & Hn' & Hrep')). unfold pnext in E. injection E as E. rewrite E.
+  eexists. split; [reflexivity |]. split; [exact Hrem' |]. split; [reflexivity |]. split; [exact Hn' |]. left. cbn [p_peek p_toks]. split; [reflexivity |].
   destruct Hrep' as [[_ Ht'] | (t1 & r1 & _ & E1 & _)]; [exact Ht' | discriminate].
 Qed.
 
@@ -549,13 +566,29 @@ Proof.
   exists f, e, st'. split; [exact Hd | split; [exact Hs | split; [exact Hr' |]]]. intros g Hg. exact (mono_d f g _ _ _ _ Hg Hd).
 Qed.
 
-Corollary expression_parses_rendering : forall x rest cs ce, wf x -> forallb clean rest = true -> lead_le 0 rest ->
-  exists f e st', expression f (mkP (raw x ++ rest) None false cs ce) = Ok (e, st') /\ strip e = tree x /\ rep st' rest.
+Corollary expression_parses_rendering : forall x rest toks cs ce, wf x -> forallb clean rest = true -> lead_le 0 rest ->
+  no_rem toks = true -> vis toks = raw x ++ rest ->
+  exists f e st', expression f (mkP toks None false cs ce) = Ok (e, st') /\ strip e = tree x /\ rep st' rest.
 Proof.
-  intros x rest cs ce W Hc Hl. destruct (parser_builds_the_tree x rest (mkP (raw x ++ rest) None false cs ce) W) as (f & e & st' & Hd & Hs & Hr & _).
-  - split; [reflexivity |]. split; [rewrite forallb_app, raw_clean, Hc; reflexivity |]. left. split; reflexivity.
+  intros x rest toks cs ce W Hc Hl Hn Hv. destruct (parser_builds_the_tree x rest (mkP toks None false cs ce) W) as (f & e & st' & Hd & Hs & Hr & _).
+  - split; [reflexivity |]. split; [rewrite forallb_app, raw_clean, Hc; reflexivity |]. split; [exact Hn |]. left. split; [reflexivity | exact Hv].
   - exact Hl.
   - exists f, e, st'. split; [exact Hd | split; [exact Hs | exact Hr]].
+Qed.
+
+(* blanks between the tokens -- any number of them, anywhere -- do not change what the parser builds: two token lists with
+   the same visible tokens give trees that are equal up to columns *)
+Corollary blanks_do_not_matter : forall x rest toks toks' cs ce cs' ce', wf x -> forallb clean rest = true -> lead_le 0 rest ->
+  no_rem toks = true -> no_rem toks' = true -> vis toks = raw x ++ rest -> vis toks' = raw x ++ rest ->
+  exists f e st e' st', expression f (mkP toks None false cs ce) = Ok (e, st) /\ expression f (mkP toks' None false cs' ce') = Ok (e', st')
+                        /\ strip e = strip e'.
+Proof.
+  intros x rest toks toks' cs ce cs' ce' W Hc Hl Hn Hn' Hv Hv'.
+  destruct (parser_builds_the_tree x rest (mkP toks None false cs ce) W) as (f & e & st & _ & Hs & _ & Hm); [| exact Hl |].
+  { split; [reflexivity |]. split; [rewrite forallb_app, raw_clean, Hc; reflexivity |]. split; [exact Hn |]. left. split; [reflexivity | exact Hv]. }
+  destruct (parser_builds_the_tree x rest (mkP toks' None false cs' ce') W) as (f' & e' & st' & _ & Hs' & _ & Hm'); [| exact Hl |].
+  { split; [reflexivity |]. split; [rewrite forallb_app, raw_clean, Hc; reflexivity |]. split; [exact Hn' |]. left. split; [reflexivity | exact Hv']. }
+  exists (Nat.max f f'), e, st, e', st'. split; [exact (Hm _ (Nat.le_max_l f f')) |]. split; [exact (Hm' _ (Nat.le_max_r f f')) |]. rewrite Hs, Hs'. reflexivity.
 Qed.
 
 (* ---------- what the table means, on examples that the theorem covers ---------- *)
